@@ -239,6 +239,7 @@ func (fc *FuncCtx) checkPost(st *State, vals []Term, n ast.Node) {
 	fc.retOrd++
 	ro := strconv.Itoa(fc.retOrd)
 	fc.cover(st, "cover.ret", n, "return reachable")
+	fc.checkAliasClauses(st, vals, n)
 	env := fc.w.newEnv(fc.pkg)
 	env.old = fc.oldEnv
 	sig := fc.obj.Type().(*types.Signature)
@@ -575,5 +576,55 @@ func setSide(env *CEnv, side *[]string) {
 		if e.iter != nil {
 			e.iter.side = side
 		}
+	}
+}
+
+// checkAliasClauses: `aliases resultK m[e]` holds at a return when the returned expression is m[E] (m the
+// parameter itself, not reassigned) and E equals e.
+func (fc *FuncCtx) checkAliasClauses(st *State, vals []Term, n ast.Node) {
+	if fc.contract == nil || len(fc.contract.Aliases) == 0 {
+		return
+	}
+	rs, _ := n.(*ast.ReturnStmt)
+	for _, al := range fc.contract.Aliases {
+		site := "result" + strconv.Itoa(al.Result)
+		var ix *ast.IndexExpr
+		if rs != nil && al.Result < len(rs.Results) {
+			ix, _ = unparen(rs.Results[al.Result]).(*ast.IndexExpr)
+		}
+		ok := false
+		if ix != nil {
+			if id, isId := unparen(ix.X).(*ast.Ident); isId {
+				for i, pv := range fc.paramVars {
+					if fc.info.ObjectOf(id) == pv && fc.paramNames[i] == al.Base {
+						// the parameter still has its entry value
+						if cur, have := st.vars[pv]; have && cur.S == fc.oldEnv.vars[al.Base].S {
+							ok = true
+						}
+					}
+				}
+			}
+		}
+		if !ok {
+			fc.oblige(st, "alias.return", site, "false", n, "the returned pointer is the element "+al.Base+"[...] of the parameter: "+al.Text)
+			continue
+		}
+		env := fc.w.newEnv(fc.pkg)
+		env.old = fc.oldEnv
+		for k, v := range fc.oldEnv.vars {
+			env.vars[k] = v
+		}
+		for i := range vals {
+			env.vars[fc.rnames[i]] = vals[i]
+			if i == 0 {
+				env.vars["result"] = vals[i]
+			}
+		}
+		want := env.eval(al.Idx)
+		saved := fc.quiet
+		fc.quiet = true
+		got := fc.eval(st, ix.Index)
+		fc.quiet = saved
+		fc.oblige(st, "alias.return", site, eq(got.S, want.S), n, "the returned pointer is the element at the index the contract names: "+al.Text)
 	}
 }
